@@ -135,6 +135,14 @@ class Spec:
             else:
                 hit("poke:miss-" + ("empty" if s[a] == EMPTY else "othertype"))
             return "ok"
+        if op == "pr":
+            a, t, code = int(f[1]), f[2], int(f[3])
+            if not self.live(a):
+                hit("invalid"); return "inv"
+            if s[a] != EMPTY and s[a][0] == t:
+                s[a] = (t, code); hit("pokeRef:hit"); return "ok"
+            hit("pokeRef:throw-" + ("empty" if s[a] == EMPTY else "othertype"))
+            return "r=x"
         if op == "vc":
             a, t, form = int(f[1]), f[2], f[3]
             if not self.live(a):
@@ -248,6 +256,7 @@ def alphabet(sp, depth, tags, full=False):
             for fm in (FORMS if full else ["l", "m"]):
                 ops.append("vc:%d:%s:%s" % (a, t, fm))
             if full:
+                ops.append("pr:%d:%s:%d" % (a, t, code_for(depth, 3, TAGS.index(t))))
                 ops.append("pc:%d:%s:0" % (a, t)); ops.append("pc:%d:%s:1" % (a, t))
     if full:
         for t in tags:
@@ -313,7 +322,7 @@ def random_seq(g, idx, maxlen, hist):
             a = r.choice(live)
             heldtag = sp.slots[a][0] if sp.slots[a] != EMPTY else None
             tag = heldtag if (heldtag and r.random() < 0.6) else r.choice(TAGS)
-            kind = r.choice(["aa", "aa", "aa", "av", "av", "rs", "sw", "ds", "pk", "pk", "vc", "vc", "pc"])
+            kind = r.choice(["aa", "aa", "aa", "av", "av", "rs", "sw", "ds", "pk", "pk", "pr", "vc", "vc", "pc"])
             if kind == "aa":
                 b = a if r.random() < 0.2 else r.choice(live)
                 tok = "aa:%d:%d:%s" % (a, b, r.choice(CATS))
@@ -328,6 +337,8 @@ def random_seq(g, idx, maxlen, hist):
                 tok = "ds:%d" % a
             elif kind == "pk":
                 tok = "pk:%d:%s:%d" % (a, tag, nc())
+            elif kind == "pr":
+                tok = "pr:%d:%s:%d" % (a, tag, nc())
             elif kind == "vc":
                 tok = "vc:%d:%s:%s" % (a, tag, r.choice(FORMS))
             else:
@@ -511,7 +522,7 @@ def run(ctx):
             ops = line.split()[3:]
             acc["ops"] += len(ops)
             # non-trivial: at least two operations, one of which (after the first) is not a construction
-            if len(ops) >= 2 and any(o[:2] in ("ca", "aa", "av", "sw", "rs", "pk", "vc", "ds", "pc") for o in ops[1:]):
+            if len(ops) >= 2 and any(o[:2] in ("ca", "aa", "av", "sw", "rs", "pk", "pr", "vc", "ds", "pc") for o in ops[1:]):
                 acc["nontrivial"].add(hl)
             if h == d and mask(h) == want:
                 continue
@@ -619,7 +630,7 @@ def run(ctx):
         "rule": "operation sequences on a pool of %d containers, every sequence started from the all-destroyed pool and ended by destroying "
                 "all containers (live probe count 0, net allocations 0, ASan/UBSan/LSan clean). Exhaustive parts: (1) full alphabet (every slot, "
                 "argument categories T&/const T&/T&&/const T&&, member and free swap, the four value-cast forms, pointer casts with mutable/const/"
-                "null operand, poke through the pointer form, all five held types): all %d sequences of valid operations of length 1..2; "
+                "null operand, mutation through the pointer form and through the reference form any_cast<T&>, all five held types): all %d sequences of valid operations of length 1..2; "
                 "(2) %s. Reduced alphabet = constructions only into the lowest destroyed slot (destroyed slots carry no state), categories const T&/T&& "
                 "for containers and T&/T&& for values, member swap with a<=b, casts any_cast<T>(any&) and any_cast<T&&>(any&&), poke, reset, destroy; "
                 "only operations valid in the current liveness state are enumerated; each enumerated sequence is its own case (results and probe "
